@@ -23,6 +23,33 @@ mod float_axioms {
         assert!((p == 0.0) == (a == 0 || b == 0));
     }
 
+    /// ax_mul + ax_score_below_max for the ARC score `frequency as f64 * position_weight as f64` (both factors are converted
+    /// u64 values): the product is finite, strictly below f64::MAX, non-negative, and zero iff a factor is zero. No underflow,
+    /// no overflow: for this shape of score nothing about the product is left assumed.
+    #[kani::proof]
+    fn k_arc_score_finite_below_max() {
+        let f: u64 = kani::any();
+        let w: u64 = kani::any();
+        let p = (f as f64) * (w as f64);
+        assert!(p.is_finite() && p >= 0.0 && p < f64::MAX);
+        assert!((p == 0.0) == (f == 0 || w == 0));
+    }
+
+    /// ax_mul, general shape used by the TLRU score: a finite non-negative factor times an age factor in [0, 1] is finite and
+    /// non-negative (it can only shrink), and is zero whenever a factor is zero. (That it is zero ONLY if a factor is zero is
+    /// not bit-precisely true for subnormal products and stays assumed.)
+    #[kani::proof]
+    fn k_mul_by_unit_interval() {
+        let a: f64 = kani::any();
+        let g: f64 = kani::any();
+        kani::assume(a.is_finite() && a >= 0.0 && g >= 0.0 && g <= 1.0);
+        let p = a * g;
+        assert!(p.is_finite() && p >= 0.0 && p <= a);
+        if a == 0.0 || g == 0.0 {
+            assert!(p == 0.0);
+        }
+    }
+
     /// ax_age_factor: clamp(1 - x/t, 0, 1) is finite and within [0, 1] for t >= 1
     #[kani::proof]
     fn k_age_factor_range() {
